@@ -101,7 +101,8 @@ func checkC14(c *Check) {
 				okCaps = isIf
 				if isIf {
 					bo, isB := iff.Cond.(*ssa.BinOp)
-					okCaps = isB && bo.Op == token.NEQ && b.Preds[0].Succs[0] == b
+					// reached exactly on the "Code != 65" outcome of the test
+					okCaps = isB && ((bo.Op == token.NEQ && b.Preds[0].Succs[0] == b) || (bo.Op == token.EQL && b.Preds[0].Succs[1] == b))
 					if okCaps {
 						cst, isC := bo.Y.(*ssa.Const)
 						okCaps = isC && cst.Value != nil && cst.Int64() == p.MustConst("CAP_FOUR_OCTET_AS")
@@ -214,8 +215,18 @@ func checkC14(c *Check) {
 		for _, r := range a.Returns {
 			if r.Results[0].Op == "alloc" {
 				v := p.loadField(r.State, r.Results[0], "Server", "id")
-				if isCallNamed(v, "be32") && isCallNamed(v.Args[0], "netip.Addr.AsSlice") {
-					ok = true
+				if isCallNamed(v, "be32") {
+					off, isC := v.Args[1].IsConst()
+					src := v.Args[0]
+					switch {
+					case isCallNamed(src, "netip.Addr.AsSlice") && isC && off == 0:
+						ok = true
+					case src.Op == "arr" && src.C == 4 && isC && off == 0:
+						// a local [4]byte holding routerID.As4()
+						if whole, has := r.State.mem[src.Args[0].Key]; has && isCallNamed(whole, "netip.Addr.As4") {
+							ok = true
+						}
+					}
 				}
 			}
 		}
